@@ -327,6 +327,11 @@ func forEachTamper(b *Built, v visitFn) {
 			h.ProtocolVersion = "0.13.3"
 		}
 	})
+	if !vge(h.ProtocolVersion, 0, 13, 4) {
+		// an older-format block relabelled as 0.13.4 (a different hash format; when the price objects are absent
+		// this is the fixture form of the nil-price regression)
+		v("hdr.version.relabel0134", func() { h.ProtocolVersion = "0.13.4" })
+	}
 	v("hdr.version.patchsuffix", func() { h.ProtocolVersion += ".1" }) // parses to the same semver, different string
 	tFelt(v, "hdr.l1gas.wei", &h.L1GasPriceETH)
 	tFelt(v, "hdr.l1gas.fri", &h.L1GasPriceSTRK)
@@ -341,7 +346,8 @@ func forEachTamper(b *Built, v visitFn) {
 	}
 	if vge(h.ProtocolVersion, 0, 13, 4) {
 		// a >= 0.13.4 block that lacks a price object (the feeder adapter leaves the pointer nil when the JSON
-		// member is absent): must be rejected like any other malformed block
+		// member is absent): must be rejected like any other malformed block. Regression input of the fixed
+		// defect sanity-panic:nil-gas-price-in-0.13.4-format (/repo 6c79775): always part of the sweep (hdr.*)
 		v("hdr.l2gasprice.nil", func() { h.L2GasPrice = nil })
 		v("hdr.l1datagasprice.nil", func() { h.L1DataGasPrice = nil })
 	}
@@ -431,7 +437,7 @@ func committedIn(b *Built, name string) bool {
 	case has("hdr."):
 		switch name {
 		case "hdr.hash", "hdr.parent", "hdr.number", "hdr.number-1", "hdr.stateroot", "hdr.sequencer", "hdr.txcount",
-			"hdr.eventcount", "hdr.timestamp", "hdr.version.otherformat":
+			"hdr.eventcount", "hdr.timestamp", "hdr.version.otherformat", "hdr.version.relabel0134":
 			return true
 		}
 		return false
